@@ -176,3 +176,81 @@ def run_all(_):
                         spy_ok = False
             events.append({"kind": "call", "m": m, "method": name, "sig": sigrec, "call": call, "res": res, "spy_called": bool(seen), "spy_ok": spy_ok})
     return events
+
+
+# ------------------------------------------------------------------ delivery: the REAL implementation behind every wrapper (no spy)
+VALS = {"v": 3, "ws": [4], "extra2": 6, "k": "kx", "w": 7, "a": 8, "n": 9, "retries": 11, "timeout": 12}
+
+
+def _where(nested, k, v):
+    """Where did the value given for keyword k end up in the object the call built / updated?"""
+    d = getattr(nested, "__dict__", {})
+    if k in d and d[k] == v and type(d[k]) is type(v):
+        return "attr"
+    for name, val in d.items():
+        if isinstance(val, dict) and k in val and val[k] == v:
+            return "in:" + name
+    return "nowhere"
+
+
+def _nested_of(res, m, ns):
+    if m["fam"] in ("init", "top"):
+        return res
+    val = getattr(res, m["attr"])
+    if m["fam"] == "scalar":
+        return val
+    if isinstance(val, dict):
+        return val["kx"]
+    if isinstance(val, KeyedList):
+        return val["kx"]
+    return list(val)[-1]
+
+
+def run_deliver(_):
+    """Every advertised nested keyword (singly, in pairs) and, where **overflow is advertised, names outside the signature, given to the real
+    method: the value must be found where the class table says (the nested attribute, or the nested overflow mapping).  The whole list
+    is run twice over: delivery must not depend on what was called before."""
+    ns, ms = methods()
+    events = []
+    for rnd in (0, 1):
+        for cls, m, name in ms:
+            if m["verb"] not in ("init", "with", "update") or (m["fam"] == "top" and m["verb"] != "update"):
+                continue
+            fn = getattr(cls, name)
+            sig = inspect.signature(fn)
+            params = [p for p in sig.parameters.values() if p.name != "self"]
+            real_names = set(fn.__code__.co_varnames[:fn.__code__.co_argcount + fn.__code__.co_kwonlyargcount])
+            virt = [p.name for p in params if p.kind is inspect.Parameter.KEYWORD_ONLY and p.name not in real_names and not p.name.startswith("_")]
+            if m["fam"] in ("init", "top"):
+                virt = [p.name for p in params if p.kind in (inspect.Parameter.KEYWORD_ONLY, inspect.Parameter.POSITIONAL_OR_KEYWORD) and not p.name.startswith("_")]
+            virt = [k for k in virt if k in VALS]
+            varkw = any(p.kind is inspect.Parameter.VAR_KEYWORD for p in params)
+            sets = [[k] for k in virt] + [list(c) for c in itertools.combinations(virt, 2)]
+            if varkw:
+                sets += [["retries"], ["retries", "timeout"]] + [[k, "timeout"] for k in virt]
+            for kws in sets:
+                send = {k: VALS[k] for k in kws}
+                if "k" in virt:
+                    send.setdefault("k", "kx")
+                args = ()
+                if m["fam"] == "elem" and ST[m["cls"]]["ty"][m["attr"]]["fam"] == "map":
+                    args = ("kx",)
+                res, out = "ok", None
+                try:
+                    if m["fam"] == "init":
+                        out = cls(**send)
+                    else:
+                        recv = cls(**({"k": "r"} if m["cls"] == "KChild" else {}))
+                        if m["fam"] == "elem" and m["verb"] == "update":
+                            # an element to update: built by the matching with_<item> helper, then addressed by index / key
+                            item = cls.__spec_class__.attrs[m["attr"]].item_name
+                            recv = getattr(recv, "with_" + item)(*args, **({"k": "kx"} if "k" in virt else {}))
+                            args = ("kx",) if args or isinstance(getattr(recv, m["attr"]), KeyedList) else (0,)
+                        out = getattr(recv, name)(*args, **send)
+                    nested = _nested_of(out, m, ns)
+                    got = [{"n": k, "where": _where(nested, k, v)} for k, v in sorted(send.items())]
+                except Exception as e:  # noqa: BLE001
+                    res, got = type(e).__name__, [{"n": k, "where": "nowhere"} for k in sorted(send)]
+                events.append({"kind": "deliver", "m": m, "method": name, "round": rnd, "res": res, "kws": got,
+                               "sig": [{"n": p.name, "kind": KIND[p.kind], "hasd": p.default is not inspect.Parameter.empty, "virtual": p.name not in real_names} for p in params]})
+    return events
